@@ -845,6 +845,125 @@ theorem cache_run (F : GF.GF) : ∀ (n s : Nat) (cache : List Poly) (last : Poly
           obtain ⟨cache', h1, h2, h3⟩ := this
           exact ⟨cache', h1, by omega, h3⟩
 
+/-! ### the tail of `ReedSolomonEncoder.Encode`: zero fill and copy of the remainder -/
+
+/-- `for i := 0; i < n; i++ { toEncode[k+i] = 0 }` on model states -/
+theorem fill_zero' (k : Nat) : ∀ (mid pre post : List Nat) (j : Nat), pre.length = k + j →
+    iterL (ρ := ρ) (fun _ i t => stepC (Bits.setWord t (k + i) 0)) j (List.range' j mid.length) (pre ++ mid ++ post) =
+      .next (pre ++ List.replicate mid.length 0 ++ post) := by
+  intro mid
+  induction mid with
+  | nil => intro pre post j _; simp [iterL]
+  | cons m ms ih =>
+    intro pre post j hpre
+    simp only [List.length_cons, List.range'_succ, iterL]
+    have hset : Bits.setWord (pre ++ (m :: ms) ++ post) (k + j) 0 = .ok ((pre ++ [0]) ++ ms ++ post) := by
+      unfold Bits.setWord
+      rw [if_pos (by simp; omega)]
+      congr 1
+      rw [← hpre, List.append_assoc, List.set_append_right _ _ (Nat.le_refl _), Nat.sub_self]
+      simp
+    simp only [hset, stepC_ok]
+    rw [ih (pre ++ [0]) post (j + 1) (by simp; omega)]
+    simp [List.replicate_succ]
+
+theorem fill_zero (k n : Nat) (te : List Nat) (h : k + n ≤ te.length) :
+    iterL (ρ := ρ) (fun _ i t => stepC (Bits.setWord t (k + i) 0)) 0 (List.range' 0 n) te =
+      .next (te.take k ++ List.replicate n 0 ++ te.drop (k + n)) := by
+  have hdec : te = te.take k ++ (te.drop k).take n ++ te.drop (k + n) := by
+    rw [List.append_assoc, ← List.drop_drop, List.take_append_drop, List.take_append_drop]
+  have hml : ((te.drop k).take n).length = n := by simp; omega
+  have := fill_zero' (ρ := ρ) k ((te.drop k).take n) (te.take k) (te.drop (k + n)) 0 (by simp; omega)
+  rw [hml, ← hdec] at this
+  exact this
+
+/-- `copy(dst[a:], src)` when `src` exactly fills the tail -/
+theorem copySeg_tail (dst src : List Nat) (a : Nat) (e1 e2 : Int) (h1 : e1 = a) (h2 : e2 = dst.length) (ha : a ≤ dst.length)
+    (hs : src.length = dst.length - a) :
+    copySeg (ints dst) e1 e2 (ints src) = .ok (ints (dst.take a ++ src)) := by
+  subst h1 h2
+  unfold copySeg
+  rw [if_pos (by simp [ints_length]; omega)]
+  congr 1
+  simp only [Int.toNat_natCast, copyL, ints, List.length_map, List.length_take, List.length_drop]
+  rw [show min (dst.length - a) (dst.length - a) = dst.length - a by omega, ← hs]
+  have e1 : List.take src.length (List.map Int.ofNat src) = List.map Int.ofNat src := by
+    rw [List.take_of_length_le (by simp)]
+  have e2 : List.drop src.length (List.take src.length (List.drop a (List.map Int.ofNat dst))) = [] := by
+    rw [List.drop_eq_nil_iff]; simp only [List.length_take, List.length_drop, List.length_map]; omega
+  have e3 : List.drop dst.length (List.map Int.ofNat dst) = [] := by
+    rw [List.drop_eq_nil_iff]; simp
+  rw [e1, e2, e3, List.append_nil, List.append_nil, List.map_append, List.map_take]
+
+theorem copySeg_neg (dst src : List Int) (e1 e2 : Int) (h : e1 < 0) :
+    copySeg dst e1 e2 src = .error (.panic "slice bounds out of range") := by
+  unfold copySeg
+  rw [if_neg (by omega)]
+
+theorem copyL_zeros (k : Nat) (te : List Nat) (h : k ≤ te.length) :
+    copyL (words (List.replicate k 0)) (ints te) = ints (te.take k) := by
+  unfold copyL
+  simp only [words, ints, List.length_map, List.length_replicate, List.map_take]
+  rw [List.drop_of_length_le (by simp; omega), List.append_nil]
+
+theorem multiplyByMonomial_error {F : GF.GF} {p : Poly} {d c : Nat} {e : Fault} (hp : p ≠ [])
+    (h : multiplyByMonomial F p d c = .error e) : IsPanic e := by
+  unfold multiplyByMonomial at h
+  split at h
+  · cases h
+  · simp only [bind, Except.bind] at h
+    cases hm : p.mapM (fun x => F.mul x c) with
+    | error e1 => simp only [hm] at h; cases h; exact mapM_error (fun x e h => mul_error h) _ _ hm
+    | ok ms =>
+      simp only [hm] at h
+      have hl := mapM_length _ _ hm
+      have : 0 < p.length := List.length_pos_iff.mpr hp
+      unfold mkPoly at h
+      cases hms : ms ++ List.replicate d 0 with
+      | nil =>
+        have := congrArg List.length hms
+        simp only [List.length_append, List.length_replicate, List.length_nil] at this; omega
+      | cons x xs => rw [hms] at h; cases h
+
+theorem multiplyByMonomial_length_le {F : GF.GF} {p v : Poly} {d c : Nat} (hp : p ≠ [])
+    (h : multiplyByMonomial F p d c = .ok v) : v.length ≤ p.length + d := by
+  have hpl : 0 < p.length := List.length_pos_iff.mpr hp
+  unfold multiplyByMonomial at h
+  split at h
+  · cases h; simp; omega
+  · simp only [bind, Except.bind] at h
+    cases hm : p.mapM (fun x => F.mul x c) with
+    | error e1 => simp only [hm] at h; cases h
+    | ok ms =>
+      simp only [hm] at h
+      have hl := mapM_length _ _ hm
+      have hne : ms ++ List.replicate d 0 ≠ [] := by
+        intro h0; have := congrArg List.length h0; simp only [List.length_append, List.length_replicate, List.length_nil] at this; omega
+      rw [Proofs.Poly.mkPoly_ok _ hne] at h
+      cases h
+      have := Proofs.Poly.normalize_length_le _ hne
+      simp at this; omega
+
+theorem buildGenerator_error (F : GF.GF) : ∀ (d : Nat) (e : Fault), buildGenerator F d = .error e → IsPanic e := by
+  intro d
+  induction d with
+  | zero => intro e h; simp only [buildGenerator] at h; cases h
+  | succ d ih =>
+    intro e h
+    rw [buildGenerator_succ] at h
+    simp only [bind, Except.bind] at h
+    cases hg : buildGenerator F d with
+    | error e1 => simp only [hg] at h; cases h; exact ih _ hg
+    | ok g =>
+      simp only [hg, genStage, bind, Except.bind] at h
+      cases he : F.expAt (d + 1 - 1 + F.base) with
+      | error e1 => simp only [he] at h; cases h; exact gfidx_error he
+      | ok ev =>
+        simp only [he] at h
+        have hmk : mkPoly [1, ev] = .ok [1, ev] := by unfold mkPoly normalize; rfl
+        simp only [hmk] at h
+        exact multiply_error (buildGenerator_ne F d g hg) (by simp) h
+
 theorem while_map' (R : τ → σ) (f : τ → Ctl τ ρ) (t : τ) {body : σ → Ctl σ ρ} {s : σ} {n : Nat}
     (hs : s = R t) (hb : ∀ t, body (R t) = mapS R (f t)) :
     whileLoop body n s = mapS R (whileLoop f n t) := by
